@@ -190,3 +190,39 @@ def run(ctx):
         asg = [s for s in ints[0].body if isinstance(s, ast.Assign)]
         ok = bool(asg) and isinstance(asg[-1].value, ast.Call) and norm(asg[-1].value.func) == "self.convert" and norm(asg[-1].value.args[1]) == "expr.typ"
     ctx.ob("C27.R3", F + ":ConstantExpressionEvaluator.eval_cast", "a cast to an integer type converts the value to that type", ok, construct="cast-converted")
+    _limits(ctx)
+
+
+def _limits(ctx):
+    """R5: the type limits that decide the type of an integer literal"""
+    from .. import sym
+    C = "ppci/lang/c/context.py"
+    ctx.rule("C27.R5", "CContext.limit_max: the largest value of an N-bit signed type is 2^(N-1) - 1, of an unsigned type 2^N - 1, with N = 8 * size (a literal exactly at 2^(N-1) must not be typed as the signed type)", floor=3)
+    lm = ctx.fn(C, "CContext.limit_max")
+    site = C + ":CContext.limit_max"
+    env = sym.single_assign_env(lm)
+    bits = env.get("bit_size")
+    ctx.ob("C27.R5", site, "the width is 8 times the size of the type in bytes", bits is not None and norm(bits).replace(" ", "") in ("8*self.type_size_map[typ.type_id][0]", "self.type_size_map[typ.type_id][0]*8", "8*self.sizeof(typ)"), construct="bit-size", detail=norm(bits) if bits is not None else "")
+    found = {}
+    for n in ast.walk(lm):
+        if isinstance(n, ast.If) and norm(n.test) in ("typ.is_signed", "not typ.is_signed"):
+            pos, neg = (n.body, n.orelse) if norm(n.test) == "typ.is_signed" else (n.orelse, n.body)
+            for key, body in (("signed", pos), ("unsigned", neg)):
+                for st in body:
+                    for x in ast.walk(st):
+                        if isinstance(x, (ast.Assign, ast.Return)) and x.value is not None:
+                            found[key] = x.value
+
+    def pow2_minus_one(e):
+        """exponent Aff of an expression of the form 2**k - 1 or (1 << k) - 1, else None"""
+        if isinstance(e, ast.BinOp) and isinstance(e.op, ast.Sub) and isinstance(e.right, ast.Constant) and e.right.value == 1:
+            b = e.left
+            if isinstance(b, ast.BinOp) and isinstance(b.op, ast.Pow) and isinstance(b.left, ast.Constant) and b.left.value == 2:
+                return sym.affine(b.right, {})
+            if isinstance(b, ast.BinOp) and isinstance(b.op, ast.LShift) and isinstance(b.left, ast.Constant) and b.left.value == 1:
+                return sym.affine(b.right, {})
+        return None
+    w = sym.atom("bit_size")
+    es, eu = (pow2_minus_one(found[k]) if k in found else None for k in ("signed", "unsigned"))
+    ctx.ob("C27.R5", site, "signed maximum = 2^(bit_size - 1) - 1", es is not None and es == w - sym.const(1), construct="signed-max", detail=norm(found["signed"]) if "signed" in found else "not found")
+    ctx.ob("C27.R5", site, "unsigned maximum = 2^bit_size - 1", eu is not None and eu == w, construct="unsigned-max", detail=norm(found["unsigned"]) if "unsigned" in found else "not found")
